@@ -396,8 +396,9 @@ class Analysis:
         if isinstance(f, ast.Name):
             if f.id in facts.nested:
                 return [(facts.nested[f.id], "function")]
-            if f.id in pkg.funcs:
-                return [(pkg.funcs[f.id], "function")]
+            fk_ = pkg.func_key(f.id, getattr(facts.fn, "_gs_module", None))
+            if fk_ is not None:
+                return [(pkg.funcs[fk_], "function")]
             if f.id in pkg.classes or f.id == "cls":
                 names = [f.id] if f.id in pkg.classes else ([facts.fn._gs_class] if getattr(facts.fn, "_gs_class", None) else [])
                 out = []
@@ -640,8 +641,8 @@ def numerical_jacobian_functions(pkg):
                         k = pkg.lookup("BaseEdge", c.func.attr)
                         if k is not None and k[0] == "method":
                             g = k[1][0]
-                    elif isinstance(c.func, ast.Name) and c.func.id in pkg.funcs and c.func.id not in keep:
-                        g = pkg.funcs[c.func.id]
+                    elif isinstance(c.func, ast.Name) and pkg.func_key(c.func.id, getattr(f, "_gs_module", None)) is not None and c.func.id not in keep:
+                        g = pkg.funcs[pkg.func_key(c.func.id, getattr(f, "_gs_module", None))]
                     if g is not None and g not in reach and getattr(g, "_gs_module", "").endswith("base_edge.py"):
                         reach.add(g)
                         todo.append(g)
